@@ -90,6 +90,11 @@ impl ExecutionCidState {
         &mut self,
         canon_value: &ValueAggregate,
     ) -> Result<CID<CanonCidAggregate>, UncatchableError> {
+        // values from services are parsed from JSON, so their depth is limited, but every canon
+        // adds a level; a deeper value would make the data unreadable for everyone, this peer included
+        if nested_deeper_than(canon_value.get_result(), MAX_VALUE_NESTING) {
+            return Err(UncatchableError::ValueNestingTooDeep(MAX_VALUE_NESTING));
+        }
         let vm_value = RawValue::from_value(canon_value.get_result().clone());
         let value_cid = self.value_tracker.track_raw_value(vm_value);
         let tetraplet = self.tetraplet_tracker.track_value(canon_value.get_tetraplet())?;
@@ -186,4 +191,26 @@ impl From<ExecutionCidState> for CidInfo {
             service_result_store: value.service_result_agg_tracker.into(),
         }
     }
+}
+
+/// serde_json, which parses raw values of data, allows 127 nested arrays and objects.
+const MAX_VALUE_NESTING: usize = 127;
+
+fn nested_deeper_than(value: &JValue, limit: usize) -> bool {
+    let mut stack = vec![(value, 0usize)];
+    while let Some((value, depth)) = stack.pop() {
+        let depth = match value {
+            JValue::Array(_) | JValue::Object(_) => depth + 1,
+            _ => continue,
+        };
+        if depth > limit {
+            return true;
+        }
+        match value {
+            JValue::Array(values) => stack.extend(values.iter().map(|v| (v, depth))),
+            JValue::Object(map) => stack.extend(map.values().map(|v| (v, depth))),
+            _ => {}
+        }
+    }
+    false
 }
